@@ -41,13 +41,19 @@ class RelBounds:
                                 self.ptrvars.add(d["d"])
                                 grew = True
 
-    def _is_end(self, n):
+    def _is_end(self, n, depth=0):
         if self.is_base is None:
             return False
         n = std_unwrap(n)
         if n.kind == "BinaryOperator" and n.op == "+":
             a, b = n.children
             return (self.is_base(a) and self._is_len(std_unwrap(b))) or (self.is_base(b) and self._is_len(std_unwrap(a)))
+        if n.kind == "DeclRefExpr" and n.get("local") and depth < 4:
+            # `const Char *const end = base + length;`: a once-initialised, never reassigned local that holds the end
+            from . import rules_atomic as _RA
+            ini = _RA.local_inits(self.fn).get(n.d["d"])
+            if ini is not None and not _RA._reassigned(self.fn, n.d["d"]):
+                return self._is_end(ini, depth + 1)
         return False
 
     def is_len(self, n):
